@@ -21,7 +21,7 @@ func init() {
 			"'delivered' = returned by the receiving endpoint's ReadFrom on the in-memory network",
 		},
 		Units:          c02.Units("C13", wire.MonitorC13, ""),
-		QuickBudget:    90,
+		QuickBudget:    240,
 		ThoroughBudget: 1200,
 	})
 }
